@@ -379,6 +379,11 @@ impl BetTable {
             // The bet_hash_size field tells us how many bits are stored
             let bet_hash_size = self.header.bet_hash_size;
 
+            // Header field from the file: widths below one byte would underflow the hash masks
+            if bet_hash_size < 8 {
+                return false;
+            }
+
             // Compute the hash using hashlittle2 (same as HET)
             let (full_hash, _name_hash1) = crate::crypto::het_hash(filename, bet_hash_size);
 
